@@ -11,6 +11,8 @@ Streams
             recomputes every printed quantity from the ingredients; the oracle checks the property in Fractions.
   certificates : the Lean driver evaluates the decidable hypotheses (nestedB, consB, intB, mapsB) of the exactness
             theorems on the real ingredients of every fe case; they must hold for every nested family (intB for exact rules).
+  float-convert : oracle only: LAFEM::Transfer<double,u64> -> convert -> <float,u32> -> convert -> <double,u64> and a clone
+            on the real code; every member within float rounding of the exact products.
   feo     : oracle only: interpolated polynomials (real Interpolator), function equality at independent sample points,
             consistency of the coarse/fine cell mapping (physical points), T P = I, R = P^T, matrix-free = matrix.
 """
@@ -744,6 +746,42 @@ def _oracle(case, out):
                     if pts[ch * 2 + a] != exp:
                         return "child triangle %d is not the expected sub-triangle" % ch
         return None
+    if op == "fxfer":
+        # value-type conversion double <-> float on the real code: every member of the converted objects within float
+        # rounding of the exact products (a matrix filled from the wrong source is an O(1) error)
+        pr, pc, prp, pci, pva = c.csr()
+        tr, tc, trp, tci, tva = c.csr()
+        x, y = c.qlist(), c.qlist()
+        if is_abnormal(out):
+            return "converted transfer operators ended with " + out
+        p = csr_dense(pr, pc, prp, pci, pva)
+        t = csr_dense(tr, tc, trp, tci, tva)
+        pt = transpose(p, pr, pc)
+        px = matvec(p, x)
+        exp = [px, matvec(pt, y), matvec(t, y), matvec(t, px)]
+
+        def absmat(m):
+            return [[abs(v) for v in row] for row in m]
+        mag = [matvec(absmat(p), [abs(v) for v in x]), matvec(absmat(pt), [abs(v) for v in y]),
+               matvec(absmat(t), [abs(v) for v in y]), matvec(absmat(t), matvec(absmat(p), [abs(v) for v in x]))]
+        names = ["prol is not P x", "rest is not P^T y", "trunc is not T y", "trunc(prol(x)) is not T P x"]
+        toks = out.split()
+        pos = 1
+        for tag, who, eps in (("DD", "the <double,u64> transfer", 2.0 ** -52), ("DF", "converted to <float,u32>", 2.0 ** -24),
+                              ("FD", "converted back to <double,u64>", 2.0 ** -24), ("FC", "deep clone of the float object", 2.0 ** -24)):
+            if toks[pos] != tag:
+                return "unparsable output near " + toks[pos]
+            pos += 1
+            for k in range(4):
+                n = int(toks[pos]); pos += 1
+                vals = [float(v) for v in toks[pos:pos + n]]; pos += n
+                if n != len(exp[k]):
+                    return "%s: wrong vector length" % who
+                for i in range(n):
+                    tol = 64 * eps * (float(mag[k][i]) + 1e-30) + 1e-300
+                    if abs(vals[i] - float(exp[k][i])) > tol:
+                        return "%s: %s (entry %d: %r, exact %r)" % (who, names[k], i, vals[i], float(exp[k][i]))
+        return None
     if op == "gforbid":
         return None if out.startswith("ABORT") else "a ghost-only member / prol_cancel did not assert: " + out[:60]
     if op == "gxfer":
@@ -897,7 +935,7 @@ def nontrivial(case):
     t = case.split(None, 8)
     if t[0] == "inv":
         return int(t[1]) >= 2
-    if t[0] in ("xfer", "gxfer"):
+    if t[0] in ("xfer", "gxfer", "fxfer"):
         return len(case.split()) > 24
     if t[0] in ("gforbid", "childmap"):
         return True
@@ -999,6 +1037,15 @@ def main(argv):
     if fe:
         streams.append(vlib.Stream("fe", fe, [binary], vlib.driver_cmd(PROP), oracle=oracle, nontrivial=nontrivial,
                                    canon=canon, describe=describe, signature=signature, env=env))
+    if not args.replay:
+        frng = random.Random(args.seed * 7919 + 18)
+        fx = ["fxfer" + c[5:] for c in CORPUS if c.startswith("gxfer ")] + \
+            ["fxfer" + gen_gxfer(frng)[5:] for _ in range(200 if args.tier == "quick" else 3000)]
+        streams.append(vlib.Stream("float-convert", fx, [binary], None, oracle=oracle, nontrivial=nontrivial,
+                                   canon=canon, describe=describe, signature=signature, env=env))
+    elif args.replay and json.load(open(args.replay))["input"].startswith("fxfer "):
+        streams.append(vlib.Stream("float-convert", [json.load(open(args.replay))["input"]], [binary], None, oracle=oracle,
+                                   canon=canon))
     if fe and not args.replay:
         cert = ["cert" + c[2:] for c in fe]
         streams.append(vlib.Stream("certificates", cert, vlib.driver_cmd(PROP), None, oracle=oracle, nontrivial=nontrivial,
